@@ -116,10 +116,12 @@ func c08Scenarios(tier string) []*Scenario {
 		shards           uint // registry shards (0: one); the root is visited once per shard by a pass
 		otherRoot        bool // an unrelated root scope of the same process runs a report pass meanwhile
 		reacquire        bool // a closed subscope that still holds a value is requested again while Close runs (its report is part of the barrier)
+		reacquireEarly   bool // ... is requested again and recorded on while a periodic pass may be dropping the closed one; Close comes after
 	}
 	vs := []variant{{cached: true, closable: true, interval: 1e9}, {interval: 1e9}, {cached: true, closable: true, interval: 1e9, twoClosers: true},
 		{interval: 0, deriver: true}, {cached: true, interval: 1e9, shards: 3}, {interval: 0, otherRoot: true},
-		{cached: true, closable: true, interval: 1e9, reacquire: true}, {interval: 0, reacquire: true}}
+		{cached: true, closable: true, interval: 1e9, reacquire: true}, {interval: 0, reacquire: true},
+		{cached: true, closable: true, interval: 1e9, reacquireEarly: true}, {interval: 1e9, reacquireEarly: true}}
 	if tier == "thorough" {
 		vs = append(vs, variant{cached: true, interval: 1e9}, variant{closable: true, interval: 1e9}, variant{cached: true, closable: true}, variant{},
 			variant{twoClosers: true}, variant{closable: true, interval: 1e9, twoClosers: true}, variant{cached: true, interval: 1e9, deriver: true},
@@ -142,6 +144,9 @@ func c08Scenarios(tier string) []*Scenario {
 		}
 		if v.reacquire {
 			name += "-closed-subscope-requested-again"
+		}
+		if v.reacquireEarly {
+			name += "-closed-subscope-requested-again-and-used-before-close"
 		}
 		out = append(out, &Scenario{
 			Property: "C08", Name: name, Ticks: tierInt(tier, 1, 2),
@@ -195,6 +200,17 @@ func c08Scenarios(tier string) []*Scenario {
 						again.Counter("late").Inc(0) // (zero: nothing to deliver, whether or not the scope is inert)
 					})
 				}
+				if v.reacquireEarly {
+					// the replacement of a closed subscope is a live scope like any other: what is recorded on it before
+					// Close is called is delivered, whatever a periodic pass was doing to the closed one meanwhile
+					s3 := root.Tagged(map[string]string{"r": "1"})
+					s3.Counter("c").Inc(16)
+					closeScope(s3)
+					rt.GoNamed("reacquirer", func() {
+						again := root.Tagged(map[string]string{"r": "1"})
+						again.Counter("c").Inc(32)
+					}).Join()
+				}
 				var derived []tally.Scope
 				var dth *rt.Thread
 				if v.deriver {
@@ -246,6 +262,9 @@ func c08Scenarios(tier string) []*Scenario {
 				want := map[string]int64{"c{}": 1, `c{"a":"1"}`: 2, "x.c{}": 4}
 				if v.reacquire {
 					want[`c{"r":"1"}`] = 16
+				}
+				if v.reacquireEarly {
+					want[`c{"r":"1"}`] = 48
 				}
 				loser := false
 				if v.twoClosers {
